@@ -479,6 +479,7 @@ func outLast() any                               { return nil }
 //@ ensures [C01 C11] boolean: node.Operator() == ast.UnaryNot || node.Operator() == ast.UnaryIsUnknown || node.Operator() == ast.UnaryExists ==> ncalls(exec.executeBoolItem) == 1 && ncalls(exec.appendBoolResult) == 1 && callarg[predOutcome](exec.appendBoolResult, "res") == callret[predOutcome](exec.executeBoolItem, 0) && callarg[error](exec.appendBoolResult, "err") == callret[error](exec.executeBoolItem, 1) && r0 == callret[resultStatus](exec.appendBoolResult, 0) && r1 == callret[error](exec.appendBoolResult, 1)
 //@ ensures [C13] sign: node.Operator() == ast.UnaryPlus || node.Operator() == ast.UnaryMinus ==> ncalls(exec.execUnaryMathExpr) == 1 && r0 == callret[resultStatus](exec.execUnaryMathExpr, 0) && r1 == callret[error](exec.execUnaryMathExpr, 1)
 //@ ensures [C17] datetime-unwrap: node.Operator() >= ast.UnaryDateTime && unwrap && is[[]any](value) ==> ncalls(exec.executeAnyItem) == 1 && ncalls(exec.executeDateTimeMethod) == 0
+//@ ensures [C17 C07] datetime-unwrap-one-level: node.Operator() >= ast.UnaryDateTime && unwrap && is[[]any](value) ==> callarg[uint32](exec.executeAnyItem, "level") == 1 && callarg[uint32](exec.executeAnyItem, "first") == 1 && callarg[uint32](exec.executeAnyItem, "last") == 1 && !callarg[bool](exec.executeAnyItem, "unwrapNext") && callarg[*valueList](exec.executeAnyItem, "found") == found && callarg[ast.Node](exec.executeAnyItem, "node") == node && sameSlice(callarg[[]any](exec.executeAnyItem, "value"), as[[]any](value)) && r0 == callret[resultStatus](exec.executeAnyItem, 0) && r1 == callret[error](exec.executeAnyItem, 1)
 //@ ensures [C17] datetime: node.Operator() >= ast.UnaryDateTime && !(unwrap && is[[]any](value)) ==> ncalls(exec.executeDateTimeMethod) == 1 && r0 == callret[resultStatus](exec.executeDateTimeMethod, 0) && r1 == callret[error](exec.executeDateTimeMethod, 1)
 
 //@ func (*Executor).execRegexNode
@@ -807,6 +808,7 @@ func isUnknownSpec(a predOutcome) predOutcome {
 //@ requires node.Operator() >= ast.BinaryAdd && node.Operator() <= ast.BinaryMod
 //@ atcall executeItemOptUnwrapResult assert [C13 C09] operands: arg_value == value && arg_unwrap && (arg_node == node.Left() || arg_node == node.Right()) && fresh(arg_found)
 //@ ensures [C13] left-singleton: ncalls(exec.executeItemOptUnwrapResult) >= 1 && pendingErr() == nil && !pendingFailed() && ncalls(execMathOp) == 0 && ncalls(exec.executeItemOptUnwrapResult) == 1 ==> r0 == statusFailed && (r1 == nil || errIs(r1, ErrVerbose))
+//@ ensures [C13 C06] success-means-the-operation-was-carried-out: r0 == statusOK && r1 == nil ==> ncalls(execMathOp) == 1 && callret[error](execMathOp, 1) == nil
 //@ ensures [C13] one-result: r1 == nil && r0 != statusFailed && !(node.Next() == nil && found == nil) ==> ncalls(execMathOp) == 1 && ncalls(exec.executeNextItem) == 1 && callarg[any](exec.executeNextItem, "value") == callret[any](execMathOp, 0) && callarg[*valueList](exec.executeNextItem, "found") == found
 //@ ensures [C13] math-error-suppressible: ncalls(execMathOp) == 1 && callret[error](execMathOp, 1) != nil ==> r0 == statusFailed && (r1 == nil || errIs(r1, ErrVerbose)) && ncalls(exec.executeNextItem) == 0
 //@ ensures [C13] operands-op: ncalls(execMathOp) == 1 ==> callarg[ast.BinaryOperator](execMathOp, "op") == node.Operator()
